@@ -628,7 +628,24 @@ def plain_molecule(rnd, cfg):
     return rnd.choice(["CCO", "C1CCOC1", "CCCCC", "c1ccccc1C", "O", "CC(=O)O", "CN(C)C=O"]), tags
 
 
+def risky_finalisation(rnd, cfg):
+    """A chain that may reach a state which still grows but cannot be finalised: units that switch the open symbol ($ -> <,
+    > -> $) under a '$' right terminal.  Trial finalisations (one per growth step) and the real one may then fail; the library
+    raises.  Not well-posed (outside C06's quantifier); every molecule that IS returned is judged like any other."""
+    if not cfg.get("allow_illposed", True):
+        return undirected(rnd, cfg)
+    a = rnd.choice(["CC", "CC(C)", "CCC"])
+    b, c = rnd.choice([("CCO", "C(=O)CC"), ("CN", "C(=O)C"), ("CCS", "CC(F)")])
+    w = rnd.choice(["|0.06|", "|0.2|", "", "|1|"])
+    units = ["[$]" + a + "[$]", "[$" + w + "]" + b + "[<]", "[>]" + c + "[$" + w + "]"]
+    T = rnd.choice([80, 150, 250])
+    dist, fam = make_dist(rnd, 40.0, T / 40.0, cfg.get("family"), cfg.get("safe_dist", False))
+    text = rnd.choice(["C", "CC", "OC"]) + "{[$] " + ", ".join(units) + " [$]}" + dist + rnd.choice(["Br", "C", "CO"])
+    return text, {"arch:risky_finalisation", "illposed:finalisation_may_fail", "family:" + fam, "start:prefix", "units:3"}
+
+
 ARCHETYPES = {
+    "risky_finalisation": risky_finalisation,
     "linear_directed": linear_directed,
     "undirected": undirected,
     "step_growth": step_growth,
@@ -642,7 +659,7 @@ ARCHETYPES = {
     "branched_lists": branched_lists,
 }
 WEIGHTS = {
-    "linear_directed": 5, "undirected": 3, "step_growth": 2, "alternating_ids": 2, "star": 2, "hyperbranched": 2,
+    "risky_finalisation": 0.6, "linear_directed": 5, "undirected": 3, "step_growth": 2, "alternating_ids": 2, "star": 2, "hyperbranched": 2,
     "graft_lists": 2, "end_transition": 1, "multiblock": 4, "segmented": 1, "branched_lists": 2,
 }
 
